@@ -1,4 +1,5 @@
 import BrushVerif.Model.Traps
+import BrushVerif.Proofs.ErrTrap
 /-!
 # C16 — the EXIT trap runs exactly once on every way out, and traps preserve `$?`
 
@@ -157,5 +158,104 @@ theorem subshell_own_trap_only_handler_missing (fuel : Nat) (fs : List Cmd) (sup
 example : subshellOwnTrapSpec 10 [] false (some (.seq (.cons .probe (.cons (.leaf 9 [0]) .nil))))
       (.seq (.cons (.leaf 1 [0]) (.cons (.exit (some 3)) .nil))) {}
     = some ({ trace := [.m 1, .q 3, .m 9], last := 3 }, { code := 3, flow := .normal }) := by decide +kernel
+
+end BrushVerif.C16
+
+/-! ## Where the ERR trap fires (Model/ErrTrap.lean: `AndOrList::execute`, `Pipeline::execute`,
+`invoke_trap_handler`; Spec/ErrTrap.lean: bash's documented rule) -/
+namespace BrushVerif.C16
+open BrushVerif.ErrTrap BrushVerif.ErrTrapSpec
+
+/-- **The ERR handler is not re-entered.**  Run any command (in particular the handler's own body,
+with failing commands, functions, subshells, loops … at any depth) while the handler's frame is
+active, through the full interpreter with the live `invoke_trap_handler`: it behaves exactly as the
+program without any trap -- no second start, same output, same status. -/
+theorem err_handler_not_reentered (et : Bool) (h : Option ErrTrap.Cmd) (c : ErrTrap.Cmd) (w : Bool)
+    (ctx : Ctx) (s : ErrTrap.St) (ha : ctx.active = true) :
+    execE et h c w ctx s = execP c w ctx s :=
+  exec_active et h c w ctx s ha
+
+/-- non-vacuity: `trap 'echo E$?; false; echo h90' ERR; false` -- one start, although the handler fails inside -/
+example : (execE false (some (.seq (.leaf 91 1) (.leaf 90 0))) (.leaf 1 1) true {} {}).1.trace
+    = [.fire 1 false, .m true 90] := by decide
+
+/-- **No firing in exempt contexts, at any depth.**  Once `suppress_errexit` is set (the condition of
+`if`/`while`/`until`, every and-or operand but the last, everything under `!`) nothing below fires:
+through function calls, subshells, groups, loops, pipelines. -/
+theorem err_no_firing_in_exempt_context (et : Bool) (h : Option ErrTrap.Cmd) (c : ErrTrap.Cmd) (w : Bool)
+    (ctx : Ctx) (s : ErrTrap.St) (hs : ctx.sup = true) :
+    execE et h c w ctx s = execP c w ctx s :=
+  exec_sup et h c w ctx s hs
+
+/-- … in particular for the four syntactic positions of the property: the handler never starts while
+the condition of an `if` or loop, the left operand of `&&`/`||`, or the operand of `!` runs; and a
+`!` pipeline itself never fires. -/
+theorem err_fires_only_outside_exempt_positions (et : Bool) (h : Option ErrTrap.Cmd) (a b e : ErrTrap.Cmd)
+    (ctx : Ctx) (s : ErrTrap.St) :
+    execE et h (.not a) true ctx s = execP (.not a) true ctx s ∧
+    execE et h (.and a b) true ctx s
+      = (let x := execP a true { ctx with sup := true } s
+         if x.2.flow ≠ .normal then x else if x.2.code = 0 then execE et h b true ctx x.1 else x) ∧
+    execE et h (.or a b) true ctx s
+      = (let x := execP a true { ctx with sup := true } s
+         if x.2.flow ≠ .normal then x else if x.2.code ≠ 0 then execE et h b true ctx x.1 else x) ∧
+    execE et h (.ifc a b e) false ctx s
+      = (let x := execP a true { ctx with sup := true } s
+         if x.2.flow ≠ .normal then x
+         else if x.2.code = 0 then execE et h b true ctx x.1 else execE et h e true ctx x.1) := by
+  have hx : ∀ s, exec (invoke et h) a true { ctx with sup := true } s = execP a true { ctx with sup := true } s :=
+    fun s => exec_sup et h a true _ s rfl
+  have hn : ∀ s, exec (invoke et h) a false { ctx with sup := true } s = exec noFire a false { ctx with sup := true } s :=
+    fun s => exec_sup et h a false _ s rfl
+  refine ⟨?_, ?_, ?_, ?_⟩
+  · simp [execE, execP, exec, hn, pipeEnd, noFire]
+  · simp [execE, exec, hx]
+  · simp [execE, exec, hx]
+  · simp [execE, exec, hx]
+
+/-- non-vacuity, with a function, an and-or list and a `!`: `set -E; f() { false; echo m3; }; f && echo m4; ! f; f`
+-- silent in the first two calls, fires inside `f` in the third -/
+example : (execE true (some (.leaf 90 0))
+      (.seq (.and (.call (.seq (.leaf 2 1) (.leaf 3 0))) (.leaf 4 0))
+        (.seq (.not (.call (.seq (.leaf 2 1) (.leaf 3 0)))) (.call (.seq (.leaf 2 1) (.leaf 3 0))))) true {} {}).1.trace
+    = [.m false 3, .m false 4, .m false 3, .fire 1 false, .m true 90, .m false 3] := by decide
+
+/-- **Every firing is for a failure at a checked position, and the handler preserves `$?` and the
+pipeline's result.**  The end of `Pipeline::execute` with the live handler differs from the one without
+a trap at most in the output; and it differs at all only for a non-zero status, outside
+`suppress_errexit`, not under `!`, at a checkpoint, outside a running handler. -/
+theorem err_trap_preserves_status (et : Bool) (h : Option ErrTrap.Cmd) (ctx : Ctx) (bang cp : Bool)
+    (sr : ErrTrap.St × Res) :
+    (pipeEnd (invoke et h) ctx bang cp sr).2 = (pipeEnd noFire ctx bang cp sr).2 ∧
+    (pipeEnd (invoke et h) ctx bang cp sr).1.last = (pipeEnd noFire ctx bang cp sr).1.last ∧
+    ((pipeEnd (invoke et h) ctx bang cp sr).1 ≠ (pipeEnd noFire ctx bang cp sr).1 →
+      sr.2.code ≠ 0 ∧ ctx.sup = false ∧ bang = false ∧ cp = true ∧ ctx.active = false) := by
+  refine ⟨by simp [pipeEnd], ?_, ?_⟩
+  · have hl : ∀ (c : Ctx) (r : Res) (s : ErrTrap.St), (invoke et h c r s).last = s.last := by
+      intro c r s
+      unfold invoke
+      split
+      · rfl
+      · split
+        · rfl
+        · split <;> rfl
+    simp [pipeEnd, noFire, apply_ite ErrTrap.St.last, hl]
+  · intro hne
+    cases hb : bang <;> cases hc : cp <;> cases hsup : ctx.sup <;> cases hact : ctx.active <;>
+      simp_all [pipeEnd, noFire, invoke]
+    intro h0; simp [h0] at hne
+
+/-- The property at full strength: brush fires exactly where bash's rule says. -/
+def err_firing_equals_reference_full : Prop :=
+  ∀ (et : Bool) (h c : ErrTrap.Cmd),
+    fires (execE et (some h) c true {} {}).1.trace = fires (ErrTrapSpec.ref et (some h) c {} {}).1.trace
+
+/-- `trap 'echo E$?' ERR; exit 3`: brush runs the handler for the `exit` that is leaving, bash does
+not (recorded finding err_trap_fires_again_for_leaving_command). -/
+theorem err_firing_equals_reference_cex : ¬ err_firing_equals_reference_full := by
+  intro hfull
+  have := hfull false (.leaf 90 0) (.exit 3)
+  revert this
+  decide
 
 end BrushVerif.C16
